@@ -11,7 +11,7 @@ def subst_params(node, mapping):
         return node
     if node.get("k") == "ref" and node.get("rk") == "param" and node.get("d") in mapping:
         return mapping[node["d"]]
-    return {k: (subst_params(v, mapping) if isinstance(v, (dict, list)) else v) for k, v in node.items()}
+    return {k: (subst_params(v, mapping) if (isinstance(v, (dict, list)) and k not in ("flagdef", "maskdef", "m") and not k.startswith("_")) else v) for k, v in node.items()}
 
 
 def inlinable(g):
@@ -141,10 +141,10 @@ def expand_flag_tests(ps, limit=4096):
     return out
 
 
-def enumerate_paths(fn, limit=4096, noreturn=(), inline=None, expand=False, _depth=0):
+def enumerate_paths(fn, limit=4096, noreturn=(), inline=None, expand=False, _depth=0, decls=False):
     """inline: {name: Function} helpers whose own paths are spliced in at their call sites (parameters replaced by the
     argument expressions; the helper's return shows as ('hret', return node, call node));  expand: see expand_flag_tests"""
-    ps = _enumerate_paths(fn, limit, noreturn)
+    ps = _enumerate_paths(fn, limit, noreturn, decls=decls)
     if inline and _depth < 3:
         res = []
         for p in ps:
@@ -154,7 +154,7 @@ def enumerate_paths(fn, limit=4096, noreturn=(), inline=None, expand=False, _dep
                 if g is not None and g is not fn and inlinable(g):
                     args = ev[2]["ch"][1:]
                     mapping = {pp["d"]: args[i] for i, pp in enumerate(g.params) if i < len(args)}
-                    gps = enumerate_paths(g, limit, noreturn, inline={k: v for k, v in inline.items() if k != g.name}, _depth=_depth + 1)
+                    gps = enumerate_paths(g, limit, noreturn, inline={k: v for k, v in inline.items() if k != g.name}, _depth=_depth + 1, decls=decls)
                     new = []
                     for gp in gps:
                         seq = []
@@ -211,7 +211,7 @@ def enumerate_paths(fn, limit=4096, noreturn=(), inline=None, expand=False, _dep
     return ps
 
 
-def _enumerate_paths(fn, limit=4096, noreturn=()):
+def _enumerate_paths(fn, limit=4096, noreturn=(), decls=False):
     cfg = fn.cfg
     nodes = fn.nodes
     out = []
@@ -228,6 +228,12 @@ def _enumerate_paths(fn, limit=4096, noreturn=()):
                 ev.append(("assign", X.render(n["ch"][0]), n))
             elif n.get("k") == "return":
                 ev.append(("ret", n))
+            elif decls and n.get("k") == "decl":
+                # a declaration with an initialiser is the local's first assignment
+                for dc in n.get("decls", ()):
+                    if dc.get("init") is not None and dc["init"].get("k") != "initlist":
+                        ref = {"k": "ref", "rk": "local", "d": dc["d"], "n": dc.get("n"), "i": n["i"], "t": dc.get("t"), "tp": dc.get("tp"), "tw": dc.get("tw"), "ts": dc.get("ts")}
+                        ev.append(("assign", dc.get("n") or "?", {"k": "assign", "op": "=", "i": n["i"], "ch": [ref, dc["init"]], "m": n.get("m", [])}))
         return ev
 
     from .facts import walk
